@@ -15,6 +15,8 @@ Components
   batch      the REAL loop of `_run_agents_parallel_batch` (compute/apply stubbed through the
              orchestrator's own override hooks) vs the same model.
   rotmain    `rotate_logs.main`: size threshold (>= --max-bytes) decides; final state vs `LogRotate.rotateOne`.
+  rotfault   `rotate_one` when ONE rename fails transiently (each documented retryable error, once/twice) or for good:
+             exact vs `rotateOne` / `failState`, Lean monitors on what is left behind.
   rotate     exact: real `rotate_one` on real files, a crash injected between every pair of
              primitive steps (os.remove / os.replace) vs `LogRotate.crashState`; Lean monitors.
   stress     (thorough, supporting) real threads + processes appending concurrently.
@@ -88,7 +90,12 @@ CLAIM = {
              "branches of atomic_replace (not crash points); lone surrogates make .encode('utf-8') raise before anything is written. "
              "LogMux capture/flush (logmux.py) and `rotate_logs.main`'s size threshold are tied by correspondence only (same file as a direct "
              "append sequence; rotated iff size >= --max-bytes). Not modelled: turn ids that are strings or None (wall-clock derived), "
-             "atomic_replace deleting its *source* when the rename keeps failing (a fault, not a crash point)."),
+             "Rename FAULTS (round 5): a retried failed attempt changes nothing (C16_rotate_transient_faults), the retried errno set is "
+             "pinned to the documented one by a regenerated table (C16_rotate_retry_set), and a rename that fails for good makes atomic_replace "
+             "unlink its SOURCE — in rotate_one a live generation — which loses a generation other than the oldest: negative witness "
+             "C16_rotate_persistent_failure_loses_source_witness / _not_lossless, reproduced exactly on the real code and recorded as finding "
+             "C16:rotfault:persistent_rename_failure_loses_only_oldest (proposed_findings/C16.json). A capture (LogMux) must never fall back to "
+             "write-through while active: monitored, including captures of > 4096 records."),
     "technique": "Lean 4 proofs (induction over schedules / arrival lists / step lists, permutation + sortedness lemmas, decide over regenerated tables) + exact correspondence on real files with crash injection",
     "design_ref": "DESIGN.md §4 C16, §5 row 16",
 }
@@ -635,7 +642,25 @@ class AppendComp(FrozenComp):
     name = "append"
     budget = {"quick": 400, "thorough": 4000, "search": 1200}
 
+    def _huge_capture(self, rng: random.Random, i: int) -> dict:
+        """5 000–10 000 tiny records in ONE capture (a capture must hold whatever a turn emits: a buffer that
+        refuses entries makes `append_jsonl` fall back to write-through and later records overtake earlier ones)."""
+        name = rng.choice(["t1.jsonl", "turn.jsonl", "health.jsonl", "foo.jsonl"])
+        n = rng.randrange(4200, 5201)
+        nw = rng.choice([1, 2])
+        qs: List[List[dict]] = [[] for _ in range(nw)]
+        sched = []
+        for j in range(n):
+            w = rng.randrange(nw)
+            qs[w].append({"k": j, "w": w})
+            sched.append(w)
+        via = ["mux_append", "mux_write_or_buffer"][(i // 133) % 2]
+        return {"ci_env": rng.choice(["true", ""]), "name": name, "qs": qs, "sched": sched, "via": via,
+                "reuse": "fields" if via == "mux_append" and rng.random() < 0.5 else None}
+
     def gen_(self, rng: random.Random, i: int) -> dict:
+        if i % 133 == 5:
+            return self._huge_capture(rng, i)
         name = rng.choice(STREAMS + ["turn.jsonl"] * 3 + OTHER)
         nw = rng.choice([1, 2, 3, 5])
         big = rng.random() < 0.03
@@ -669,6 +694,7 @@ class AppendComp(FrozenComp):
         d = scratch_dir("append")
         pend = [list(q) for q in case["qs"]]
         trace = []
+        early: list = []
         via = case.get("via", "direct")
         reuse = case.get("reuse")
         objs: Dict[int, dict] = {}
@@ -725,17 +751,15 @@ class AppendComp(FrozenComp):
                                     logmux.write_or_buffer(case["name"], emit(w, rec))
                                 trace.append([w, rec])
                         writers_move_on()  # … before the captured pairs are flushed
-                        captured_nothing_written = not (d / case["name"]).exists()
+                        early = sorted((x.name, x.stat().st_size) for x in d.iterdir())
                     logmux.flush(mux.dump())
-                    if not captured_nothing_written:
-                        trace.append([-1, {"__written_while_captured__": True}])
             p = d / case["name"]
             data = p.read_bytes() if p.exists() else b""
             others = sorted(x.name for x in d.iterdir() if x.name != case["name"])
         finally:
             shutil.rmtree(d, ignore_errors=True)
         raw = [[l1(c) for c in g["chunks"]] for g in rec_raw.groups if os.path.basename(g["path"]) == case["name"]]
-        return {"file": data.decode("utf-8"), "trace": trace, "others": others, "raw": raw}
+        return {"file": data.decode("utf-8"), "trace": trace, "others": others, "raw": raw, "early": early}
 
     def _lines(self, case) -> List[List[str]]:
         if case.get("reuse") == "nested_inplace":
@@ -805,6 +829,8 @@ class AppendComp(FrozenComp):
             mine = [tcanon_rec(r) for ww, r in impl_out["trace"] if ww == w]
             res.append(("writer_order_kept", mine == [tcanon_rec(r) for r in q][:len(mine)], f"writer {w}"))
         res.append(("no_stray_files", impl_out["others"] == [], f"{impl_out['others']}"))
+        res.append(("capture_never_writes_through", not impl_out.get("early"),
+                    f"reached the disk while the capture was still active (before its flush): {impl_out.get('early')}"))
         return res
 
     def tags_(self, case, impl_out):
@@ -819,6 +845,8 @@ class AppendComp(FrozenComp):
             t.add("big_line")
         if case.get("via", "direct") != "direct" and n:
             t.add(case["via"])
+        if n > 4096:
+            t.add("capture_above_4096_" + case.get("via", "direct"))
         if case.get("reuse") and n >= 2:
             t.add("dict_reused_" + case.get("via", "direct"))
             t.add("dict_reused_ci_" + ("on" if case["ci_env"].lower() == "true" else "off"))
@@ -1198,6 +1226,14 @@ class BatchComp(FrozenComp):
     budget = {"quick": 300, "thorough": 3000, "search": 1000}
 
     def gen_(self, rng: random.Random, i: int) -> dict:
+        if i % 101 == 7:  # one agent emitting thousands of tiny records inside the driver's capture
+            n = rng.randrange(4200, 5001)
+            streams = rng.sample(["t1.jsonl", "health.jsonl", "turn.jsonl", "t3_plan.jsonl"], 2)
+            bufs = [{"agent": "ag0", "logs": [[streams[j % 2 if j % 7 else 0], {"k": j}] for j in range(n)],
+                     "reuse": rng.random() < 0.5}]
+            if rng.random() < 0.5:
+                bufs.append({"agent": "ag1", "logs": [["t1.jsonl", {"k": -1}]], "reuse": False})
+            return {"ci_env": rng.choice(["true", ""]), "limit": 32 * 1024 * 1024, "turn": 3, "slice": 0, "bufs": bufs}
         nag = rng.choice([1, 2, 3, 4])
         turn, sl = rng.choice([0, 1, 7]), rng.choice([0, 0, 2])
         bufs = []
@@ -1238,6 +1274,7 @@ class BatchComp(FrozenComp):
         saved = {k: getattr(orch, k, None) for k in ("apply_changes", "enable_staging")}
         had = {k: hasattr(orch, k) for k in saved}
         real_orchestrator = ocore.Orchestrator
+        early: List[str] = []
 
         class StageEmitter:
             """Stands in for `Orchestrator` inside the REAL `_run_turn_compute`: its `run_turn` emits the
@@ -1256,6 +1293,7 @@ class BatchComp(FrozenComp):
                         append_jsonl(p, dict(r))
                 obj.clear()
                 obj["__reused_after_append__"] = True
+                early.extend(x.name for x in d.iterdir())  # nothing may reach the disk during the compute phase
                 return None
 
         def apply_changes(ctx, state, t4):
@@ -1286,7 +1324,7 @@ class BatchComp(FrozenComp):
             shutil.rmtree(d, ignore_errors=True)
         raw = [[os.path.basename(g["path"]), [l1(c) for c in g["chunks"]]] for g in rec_raw.groups
                if os.path.dirname(g["path"]) == str(d.resolve()) or os.path.dirname(g["path"]) == str(d)]
-        return {"files": files, "raw": raw}
+        return {"files": files, "raw": raw, "early": sorted(set(early))}
 
     def monitor_requests_(self, case, impl_out):
         raw = impl_out.get("raw", [])
@@ -1340,6 +1378,8 @@ class BatchComp(FrozenComp):
                 continue
             res.append(("batch_file_is_arrival_sequence", got == exp and (raw == "" or raw.endswith("\n")),
                         f"{p}: got={json.dumps(got)[:200]} expected={json.dumps(exp)[:200]}"))
+        res.append(("capture_never_writes_through", not impl_out.get("early"),
+                    f"log files existed during the compute phase (before the commit flush): {impl_out.get('early')}"))
         groups = impl_out.get("raw", [])
         if groups and sum(len(c) for _, g in groups for c in g) == sum(len(v.encode("utf-8")) for v in impl_out["files"].values()):
             one = all("".join(g).count("\n") == 1 and "".join(g).endswith("\n") for _, g in groups)
@@ -1358,6 +1398,8 @@ class BatchComp(FrozenComp):
             t.add("multi_agent")
         if any(sum(len(c) for c in g) > 8192 for _, g in impl_out.get("raw", [])):
             t.add("frame_above_buffer")
+        if any(len(b["logs"]) > 4096 for b in case["bufs"]):
+            t.add("capture_above_4096")
         if any(b.get("reuse") and len(b["logs"]) >= 2 for b in case["bufs"]):
             t.add("dict_reused_under_staging")
             t.add("dict_reused_ci_" + ("on" if case["ci_env"].lower() == "true" else "off"))
@@ -1497,7 +1539,7 @@ class RotateComp(FrozenComp):
         if "__raised__" in impl_out:
             return f"implementation raised {impl_out}"
         io = {k: impl_out[k] for k in ("steps", "rotated", "states")}
-        return Component.compare(self, case, io, model_out)
+        return Component.compare(self, case, io, {k: model_out.get(k) for k in ("steps", "rotated", "states")})
 
     def monitor_requests_(self, case, impl_out):
         rq = []
@@ -1641,6 +1683,171 @@ class RotateMainComp(FrozenComp):
             yield dict(case, gens=case["gens"][:i] + case["gens"][i + 1:])
 
 
+class _NoSleepTime:
+    """`time` as seen by clematis.io.atomic while faults are injected: back-off sleeps take no time."""
+
+    def __getattr__(self, k):
+        import time as _t
+        return getattr(_t, k)
+
+    def sleep(self, _s):
+        return None
+
+
+def run_rotation_fault(gens: Dict[int, int], backups: int, hi: int, mv_pick: int, err: str, count: Optional[int]) -> dict:
+    """Real `rotate_one` where ONE rename of the cascade fails `count` times (None = every time) with the given
+    error before succeeding.  The faulty rename is the `mv_pick`-th (mod the number of renames) of a clean run."""
+    import errno as _errno
+    import clematis.io.atomic as A
+    from clematis.scripts import rotate_logs as RL
+    clean = run_rotation(gens, backups, None, hi)
+    mvs = [k for k, st in enumerate(clean["steps"]) if st[0] == "mv"]
+    if not mvs:
+        return {"steps": clean["steps"], "j": None, "raised": None, "ret": clean["ret"], "state": clean["state"],
+                "failed_attempts": 0, "intact": clean["intact"], "stray": clean["stray"]}
+    j = mvs[mv_pick % len(mvs)]
+    d = scratch_dir("rotf")
+    base = str(d / "log.jsonl")
+    try:
+        for k, c in gens.items():
+            Path(base if k == 0 else f"{base}.{k}").write_text(f"gen{c}\n", encoding="utf-8")
+        (d / "other.jsonl").write_text("other\n", encoding="utf-8")
+        done: List[list] = []
+        failed = [0]
+        real_remove, real_replace = os.remove, os.replace
+
+        def make_err():
+            if err == "PermissionError":
+                return PermissionError("injected sharing violation")
+            return OSError(getattr(_errno, err), f"injected {err}")
+
+        def p_remove(p, *a, **kw):
+            r = real_remove(p, *a, **kw)
+            i = _gen_index(base, os.fspath(p))
+            if i is not None:
+                done.append(["rm", i])
+            return r
+
+        def p_replace(s_, t_, *a, **kw):
+            i, k = _gen_index(base, os.fspath(s_)), _gen_index(base, os.fspath(t_))
+            if i is None and k is None:
+                return real_replace(s_, t_, *a, **kw)
+            if len(done) == j and (count is None or failed[0] < count):
+                failed[0] += 1
+                raise make_err()
+            r = real_replace(s_, t_, *a, **kw)
+            done.append(["mv", -1 if i is None else i, -1 if k is None else k])
+            return r
+
+        ret: Any = None
+        raised = None
+        saved_time = A.time
+        os.remove, os.replace = p_remove, p_replace
+        A.time = _NoSleepTime()
+        try:
+            ret = RL.rotate_one(base, backups)
+        except Exception as e:  # the fault surfacing to the caller is fine; what it leaves behind is what matters
+            raised = type(e).__name__
+        finally:
+            os.remove, os.replace = real_remove, real_replace
+            A.time = saved_time
+        state: List[Optional[int]] = []
+        for k in range(hi + 1):
+            pth = Path(base if k == 0 else f"{base}.{k}")
+            if pth.exists():
+                txt = pth.read_text(encoding="utf-8")
+                state.append(int(txt[3:-1]) if txt.startswith("gen") and txt.endswith("\n") and txt[3:-1].isdigit() else -1)
+            else:
+                state.append(None)
+        names = sorted(x.name for x in d.iterdir())
+        stray = [n for n in names if _gen_index("log.jsonl", n) is None and n != "other.jsonl"]
+        intact = (d / "other.jsonl").read_text() == "other\n"
+    finally:
+        shutil.rmtree(d, ignore_errors=True)
+    return {"steps": clean["steps"], "j": j, "raised": raised, "ret": ret, "state": state, "failed_attempts": failed[0],
+            "intact": intact, "stray": stray}
+
+
+class RotateFaultComp(FrozenComp):
+    """Rotation under FAULTS of a rename (not crashes): transient (fails once/twice with an error `atomic_replace`
+    documents as retryable, then succeeds) and persistent.  Exact vs `LogRotate.rotateOne` / `failState`; Lean
+    monitors `legalStateB`/`nothingLostB` on what is left behind."""
+    name = "rotfault"
+    budget = {"quick": 160, "thorough": 2500, "search": 600}
+    #: what io/atomic.py documents as retryable (the regenerated table + `C16_rotate_retry_set` pin the source to it)
+    TRANSIENT = ["EACCES", "EPERM", "EBUSY", "EBUSY", "PermissionError"]
+    PERSISTENT = ["EBUSY", "EIO", "ENOSPC", "EACCES", "PermissionError"]
+
+    def gen_(self, rng: random.Random, i: int) -> dict:
+        backups = rng.choice([1, 2, 2, 3, 3, 4, 5])
+        top = backups + 2
+        sel = [k for k in range(top + 1) if rng.random() < 0.7]
+        if rng.random() < 0.8 and 0 not in sel:
+            sel = [0] + sel
+        persistent = rng.random() < 0.25
+        return {"backups": backups, "gens": [[k, 100 + k] for k in sorted(sel)], "hi": top + 1,
+                "mv_pick": rng.randrange(6), "count": None if persistent else rng.choice([1, 1, 2]),
+                "err": rng.choice(self.PERSISTENT if persistent else self.TRANSIENT)}
+
+    def impl_(self, case: dict) -> Any:
+        return run_rotation_fault({k: c for k, c in case["gens"]}, case["backups"], case["hi"], case["mv_pick"],
+                                  case["err"], case["count"])
+
+    def request_(self, case: dict) -> dict:
+        return {"c": "c16.rotate", "gens": case["gens"], "backups": case["backups"], "hi": case["hi"]}
+
+    def _expected(self, case, impl_out, model_out):
+        j = impl_out["j"]
+        if j is None or case["count"] is not None:
+            return model_out["states"][-1]
+        return model_out["fails"][j]
+
+    def compare_(self, case, impl_out, model_out):
+        if not isinstance(model_out, dict) or "fails" not in model_out:
+            return f"model error {model_out}"
+        if "__raised__" in impl_out:
+            return f"implementation raised {impl_out}"
+        if impl_out["steps"] != model_out["steps"]:
+            return f"steps of the clean run: impl={impl_out['steps']} model={model_out['steps']}"
+        exp = self._expected(case, impl_out, model_out)
+        if impl_out["state"] != exp:
+            return (f"state after the {'persistent' if case['count'] is None else 'transient'} {case['err']} fault at step "
+                    f"{impl_out['j']}: impl={impl_out['state']} model={exp}")
+        return None
+
+    def monitor_requests_(self, case, impl_out):
+        after = [[k, c] for k, c in enumerate(impl_out["state"]) if c is not None]
+        name = ("persistent_rename_failure_loses_only_oldest" if case["count"] is None and impl_out["j"] is not None
+                else "transient_rename_fault_loses_only_oldest")
+        return [(name, {"c": "c16.rotate.mon", "before": case["gens"], "after": after, "backups": case["backups"],
+                        "hi": case["hi"]})]
+
+    def monitors_(self, case, impl_out):
+        res = [("rotation_fault_leaves_other_files_alone", impl_out["intact"] and not impl_out["stray"],
+                f"intact={impl_out['intact']} stray={impl_out['stray']}")]
+        if case["count"] is not None:
+            gens = {k: c for k, c in case["gens"]}
+            b = case["backups"]
+            exp = [None] + [gens.get(k - 1) for k in range(1, b + 1)] + [gens.get(k) for k in range(b + 1, case["hi"] + 1)]
+            res.append(("transient_fault_is_retried_and_rotation_completes",
+                        impl_out["raised"] is None and impl_out["state"] == exp[: len(impl_out["state"])],
+                        f"{case['err']} x{case['count']} at step {impl_out['j']}: raised={impl_out['raised']} "
+                        f"state={impl_out['state']} expected={exp}"))
+        return res
+
+    def tags_(self, case, impl_out):
+        if impl_out.get("j") is None:
+            return ["default"]
+        t = {"persistent_" + case["err"] if case["count"] is None else "transient_" + case["err"]}
+        last = impl_out["steps"][impl_out["j"]][1] == 0
+        t.add("fault_on_live_log" if last else "fault_in_cascade")
+        return sorted(t)
+
+    def shrink_(self, case):
+        for i in range(len(case["gens"])):
+            yield dict(case, gens=case["gens"][:i] + case["gens"][i + 1:])
+
+
 # ---------------------------------------------------------------------------
 # fixed obligations + stress
 # ---------------------------------------------------------------------------
@@ -1774,7 +1981,7 @@ def stress(ctx: Ctx) -> None:
                          f"torn={torn} order_ok={order_ok} lines={len(lines) - 1} expected={n * len(writers)} lf_end={ok}", None)
 
 
-COMPONENTS = [NormalizeComp(), AppendComp(), RewriteComp(), StagerComp(), BatchComp(), RotateComp(), RotateMainComp()]
+COMPONENTS = [NormalizeComp(), AppendComp(), RewriteComp(), StagerComp(), BatchComp(), RotateComp(), RotateMainComp(), RotateFaultComp()]
 
 
 def run(ctx: Ctx) -> None:
